@@ -220,7 +220,7 @@ def _build(item):
     psy0 = sem.parse(src)
     nst = len(sem.routine_named(psy0, "s").children)
     for lo in range(2, nst):
-        for hi in range(lo + 1, min(nst, lo + 4) + 1):
+        for hi in range(lo + 1, min(nst, lo + MAXLEN[0]) + 1):
             cid = f"{pid}#{lo}:{hi}"
             psy = sem.parse(src)
             r = sem.routine_named(psy, "s")
@@ -347,7 +347,16 @@ MATCHERS = {"partial-array-write-first": m_partial_array,
             "conditional-write-first": m_conditional_write}
 
 
+MAXLEN = [4]
+
+
 def run(tier):
+    global DOM, FILLS
+    if tier != "quick":        # thorough: longer regions, larger input domain, all fills
+        DOM = [("n", [0, 1, 2, 3, 4]), ("m", [1, 2, 3]), ("kout", [2, 3]), ("t", [[1, 2], [-3, 2]]),
+               ("u", [[3, 1]]), ("flag", [True, False])]
+        FILLS = [1, 2, 3, 4]
+        MAXLEN[0] = 7
     core.setup_psyclone_env()
     out = core.Outcome("C12", tier, "model_checking", matchers=MATCHERS)
     results = [r for part in core.pool_map(_build, items(tier), chunksize=1) for r in part]
